@@ -383,6 +383,9 @@ def oracle(pts, wts, attrs, d, size_tab, lmax):
     res["worst"] = worst
     if first is not None:
         res["viol"].append({"kind": "lm", "l": first[0], "m": first[1], "observed": first[2]})
+    # how many quantities fail in all (so that a listed known finding of this grid cannot mask further failures of it)
+    res["n_bad"] = [int(sum(1 for lm_ in lm_order(lmax) if lm_[0] >= 1 and abs(S[lm_]) > 2 * TOL_INT)),
+                    int(np.sum(np.abs(r2) > 2 * TOL_SPHERE)), int(any(v_["kind"] == "wsum" for v_ in res["viol"]))]
     return res
 
 
@@ -476,48 +479,50 @@ def route_checks(ctx: Ctx, tabs):
                 for sp in spellings[1:]:
                     for fm in forms:
                         plans.append((sp, fm, False))
+                import itertools
+
                 for sp0, (rname, req, rq), full in plans:
-                    routes = []  # (label, steps) ; a step is ("build", cache[, spelling]) or ("edit",) ; the last built grid is judged
+                    # a step is ("build", cache[, spelling[, (req, rq)]]) or ("edit",) (in-place edit of the grid built last).
+                    # EVERY grid is judged right after its construction, and every grid that was not edited is judged
+                    # again at the end of the history (a later construction must not change a grid handed out earlier).
+                    routes = []
                     if full:
-                        for c in (False, True):
-                            routes.append((f"cold;cache={c}", [("build", c)]))
-                            routes.append((f"cold;cache=True;then cache={c}", [("build", True), ("build", c)]))
-                            routes.append((f"cold;cache=False;then cache={c}", [("build", False), ("build", c)]))
-                            for c0 in (False, True):
-                                routes.append((f"cold;cache={c0};edit in place;then cache={c}", [("build", c0), ("edit",), ("build", c)]))
-                        routes.append(("cold;cache=True;edit in place;cache=True;edit in place;then cache=True",
-                                       [("build", True), ("edit",), ("build", True), ("edit",), ("build", True)]))
+                        # all histories of up to three constructions (cache on/off each), with or without an in-place
+                        # edit of the returned arrays between two constructions
+                        for nb in (1, 2, 3):
+                            for cs_ in itertools.product((False, True), repeat=nb):
+                                for es_ in itertools.product((False, True), repeat=nb - 1):
+                                    steps, lab = [], []
+                                    for i_, c_ in enumerate(cs_):
+                                        steps.append(("build", c_))
+                                        lab.append(f"cache={c_}")
+                                        if i_ < nb - 1 and es_[i_]:
+                                            steps.append(("edit",))
+                                            lab.append("edit in place")
+                                    routes.append(("cold;" + ";".join(lab), steps))
+                        # the same grid requested through the other request form inside a history
+                        other = forms[1] if rname == forms[0][0] else forms[0]
+                        for cs_ in itertools.product((False, True), repeat=3):
+                            routes.append((f"cold;cache={cs_[0]};{other[2]} cache={cs_[1]};cache={cs_[2]}",
+                                           [("build", cs_[0]), ("build", cs_[1], sp0, (other[1], other[2])), ("build", cs_[2])]))
                     else:
                         routes.append(("cold;cache=False", [("build", False)]))
                         routes.append(("cold;cache=True", [("build", True)]))
-                        routes.append(("cold;cache=True;then cache=True", [("build", True), ("build", True)]))
-                        routes.append(("cold;cache=True;edit in place;then cache=True", [("build", True), ("edit",), ("build", True)]))
+                        routes.append(("cold;cache=True;cache=True", [("build", True), ("build", True)]))
+                        routes.append(("cold;cache=True;cache=False;cache=True", [("build", True), ("build", False), ("build", True)]))
+                        routes.append(("cold;cache=True;edit in place;cache=True", [("build", True), ("edit",), ("build", True)]))
                         if sp0 != meth:  # the same grid requested under two spellings in one process, both orders
-                            routes.append((f"cold;cache=True as '{meth}';then cache=True", [("build", True, meth), ("build", True)]))
-                            routes.append((f"cold;cache=True;then cache=True as '{meth}'", [("build", True), ("build", True, meth)]))
-                    for label, steps in routes:
-                        cold()
-                        n += 1
-                        ctx.case(("route", sp0, d, rname, label))
-                        key = f"route:{sp0}:{rq}:{label}"
-                        script = []
-                        try:
-                            g = None
-                            for st in steps:
-                                if st[0] == "build":
-                                    sp = st[2] if len(st) > 2 else sp0
-                                    g = build(sp, req, st[1])
-                                    script.append(f"g = AngularGrid({rq}, method='{sp}', cache={st[1]})")
-                                else:
-                                    edit(g)
-                                    script.append("w = g.weights; w *= 2.25; p = g.points; p *= 1.5")
-                            pts, wts, attrs = grid_arrays(g)
-                        except Exception as e:  # noqa: BLE001
-                            viols.append((key, type(e).__name__, f"{'; '.join(script)} raised {type(e).__name__}: {e}",
-                                          {"reproduce": "clear the four module caches; " + "; ".join(script)}))
-                            continue
+                            routes.append((f"cold;cache=True as '{meth}';cache=True", [("build", True, meth), ("build", True)]))
+                            routes.append((f"cold;cache=True;cache=True as '{meth}'", [("build", True), ("build", True, meth)]))
+                            routes.append((f"cold;cache=True as '{meth}';cache=False;cache=True as '{meth}'",
+                                           [("build", True, meth), ("build", False), ("build", True, meth)]))
+                    fac = 4 * math.pi if abs(fsum - 1.0) < 1e-6 else 1.0
+
+                    def judge(g_, which, script, key):
+                        """oracle + shipped-file comparison of one grid of the history; appends to viols / mism; True if fine"""
+                        pts, wts, attrs = grid_arrays(g_)
                         rp = {"reproduce": "clear LEBEDEV_CACHE/SPHERICAL_CACHE/MAX_DET_CACHE/AHRENS_BEYLKIN_CACHE; " + "; ".join(script)
-                                           + "; judge the last g", "file": f"{meth}_{d}_{size}.npz"}
+                                           + f"; judge {which}", "file": f"{meth}_{d}_{size}.npz"}
                         r = oracle(pts, wts, attrs, d, size, d)
                         if r["viol"]:
                             v = first_viol(r["viol"])
@@ -526,14 +531,46 @@ def route_checks(ctx: Ctx, tabs):
                                     "sphere": f"has point {v.get('index')} with |p|^2-1 = {v.get('observed')}",
                                     "lm": f"integrates the harmonic (l,m)=({v.get('l')},{v.get('m')}) to {v.get('observed')} instead of 0"}[v["kind"]]
                             obs = str(v["observed"]) if v["kind"] == "size" else v["observed"]
-                            viols.append((key, obs, f"after [{'; '.join(script)}] (caches cleared before) the last grid {what}",
+                            viols.append((key, obs, f"after [{'; '.join(script)}] (caches cleared before) {which} {what}",
                                           {**rp, **{k: v[k] for k in v if k != "observed"}, "observed": obs}))
-                            continue
-                        # against the shipped file: same points, weights = file weights (x 4 pi when the file is normalised to 1)
-                        fac = 4 * math.pi if abs(fsum - 1.0) < 1e-6 else 1.0
+                            return False
                         if not (pts.shape == fp.shape and np.array_equal(pts, fp) and np.all(np.abs(wts - fac * fw) <= 4 * 2.0**-52 * np.abs(wts))):
-                            mism.append((key, "file-mismatch", f"after [{'; '.join(script)}] the last grid satisfies the property but is not the shipped "
+                            mism.append((key, "file-mismatch", f"after [{'; '.join(script)}] {which} satisfies the property but is not the shipped "
                                          f"{meth}_{d}_{size}.npz (points / weights{' x 4 pi' if fac != 1.0 else ''})", rp))
+                            return False
+                        return True
+
+                    for label, steps in routes:
+                        cold()
+                        n += 1
+                        ctx.case(("route", sp0, d, rname, label))
+                        key = f"route:{sp0}:{rq}:{label}"
+                        script, held = [], []  # held: [grid, name, edited?]
+                        try:
+                            ok_ = True
+                            for st in steps:
+                                if st[0] == "build":
+                                    sp = st[2] if len(st) > 2 else sp0
+                                    rq_, rqs_ = st[3] if len(st) > 3 else (req, rq)
+                                    nm = f"g{len(held) + 1}"
+                                    g = build(sp, rq_, st[1])
+                                    script.append(f"{nm} = AngularGrid({rqs_}, method='{sp}', cache={st[1]})")
+                                    held.append([g, nm, False])
+                                    if not judge(g, nm, script, key):
+                                        ok_ = False
+                                        break
+                                else:
+                                    edit(held[-1][0])
+                                    held[-1][2] = True
+                                    nm = held[-1][1]
+                                    script.append(f"w = {nm}.weights; w *= 2.25; p = {nm}.points; p *= 1.5")
+                            if ok_ and len(held) > 1:
+                                for g_, nm, ed in held[:-1]:
+                                    if not ed and not judge(g_, f"{nm} again at the end", script, key):
+                                        break
+                        except Exception as e:  # noqa: BLE001
+                            viols.append((key, type(e).__name__, f"{'; '.join(script)}; next step raised {type(e).__name__}: {e}",
+                                          {"reproduce": "clear the four module caches; " + "; ".join(script) + f"; then step {st}"}))
     finally:
         for c, s in zip(caches, saved):
             c.clear()
@@ -744,6 +781,14 @@ def run(ctx: Ctx):
         rp["kernel_refutation"] = thm
         ctx.fail(f"grid_exact_{meth}_{deg}", k, v["observed"], text, rp)
         candidates.append((k, v["observed"], text, rp))
+        if ctx.is_known(k, v["observed"]) and sweep[key].get("n_bad") and sweep[key]["lmax"] == deg:
+            # the reported quantity is a listed finding: the number of failing quantities of this grid is part of the finding too
+            nb_ = sweep[key]["n_bad"]
+            k2_ = f"{fname}:failing-quantities"
+            t2_ = (f"{fname}: AngularGrid(degree={deg}, method='{meth}') fails {nb_[0]} of the {(deg + 1) ** 2 - 1} harmonic integrals (l>=1), "
+                   f"{nb_[1]} points are off the unit sphere, weight sum {'wrong' if nb_[2] else 'right'}")
+            ctx.fail(f"grid_exact_{meth}_{deg}", k2_, nb_, t2_, {**rp, "n_bad": nb_})
+            candidates.append((k2_, nb_, t2_, {**rp, "n_bad": nb_}))
     # ---------------- every construction route and short histories (cold / warm caches, degree= / size=, in-place edits)
     t_ph = time.time()
     try:
